@@ -93,6 +93,9 @@ def observe(tag, H, g, is_sc, rng, plt):
         guarded(f"{tag}.bary", "bary", "edge_positions_from_barycenters", bary)
     if not has_pair:
         return out
+    items_ = list(pos.items())
+    rng.shuffle(items_)
+    pos = dict(items_)  # hand-written / reused position dicts are not in node order
     back = {(float(p[0]), float(p[1])): iN(n) for n, p in pos.items()}
 
     def node_at(pt):
@@ -194,6 +197,9 @@ def _worker(args):
         g = Gamma(*(nets.FAMS + [("npint", "npint"), ("floatnode", "int")])[(base_ + k) % 5])
         H = obscore.realise(j, g, rng, shuffle=True)
         out += observe(f"s{base_ + k}", H, g, False, rng, plt)
+        if k % 3 == 0:  # labels of several types in one hypergraph ("whatever its labels")
+            gm = Gamma("mixed", "int")
+            out += observe(f"s{base_ + k}mx", obscore.realise(j, gm, rng, shuffle=True), gm, False, rng, plt)
         S = xgi.SimplicialComplex()
         S.add_nodes_from([g.node(n) for n in j["nodes"]])
         with warnings.catch_warnings():
